@@ -467,6 +467,26 @@ func W6Special(sink Sink) {
 		}
 	}
 	emit(md + strings.Repeat("0", 600) + "1e" + strconv.Itoa(mx-601))
+	// exact ties followed by a zero run and one more non-zero digit, INSIDE THE FRACTION, with the
+	// last digit before / at / after the 800-digit capacity of the slow path (the digit must still
+	// break the tie; seeded change C03r6-m2 lost the truncation flag for fraction digits only)
+	for _, tie := range []string{
+		"1.00000000000000011102230246251565404236316680908203125",  // 1 + 2^-53
+		"0.500000000000000166533453693773481063544750213623046875", // 0.5 + 3*2^-54 (tie above an odd mantissa)
+		"9007199254740993.5",  // 2^53 + 1.5
+		"4503599627370497.25", // 2^52 + 1.25
+		"0.1000000000000000124900090270330610871315002441406250", // tie between 0.1's neighbours
+	} {
+		digits := len(tie) - 1
+		for _, total := range []int{700, 798, 799, 800, 801, 802, 803, 810, 900} {
+			if total <= digits+1 {
+				continue
+			}
+			for _, last := range []string{"1", "9", "0"} {
+				emit(tie + strings.Repeat("0", total-digits-1) + last)
+			}
+		}
+	}
 	// half of the smallest subnormal
 	hd, hx := scale2(big.NewInt(1), -1075)
 	for L := 1; L <= len(hd); L += 1 + L/20 {
